@@ -175,11 +175,16 @@ inline T* shmap(size_t n) {
   return (T*)p;
 }
 
-inline bool set_add(std::atomic<uint64_t>* tab, uint64_t slots, uint64_t v) {
+inline bool set_add(std::atomic<uint64_t>* tab, uint64_t slots, uint64_t v,
+                    bool lossy = false) {
   if (v == 0)
     v = 1;
   uint64_t h = v * 0x9e3779b97f4a7c15ULL;
   for (uint64_t i = 0;; ++i) {
+    // lossy = statistics only (distinct outcomes): when the table is nearly
+    // full stop counting instead of spinning.  The state set is never lossy.
+    if (lossy && i > 4096)
+      return false;
     std::atomic<uint64_t>& c = tab[(h + i) & (slots - 1)];
     uint64_t cur             = c.load(std::memory_order_relaxed);
     if (cur == v)
@@ -386,7 +391,23 @@ public:
       int live = nw;
       while (live > 0) {
         int status;
-        pid_t p = waitpid(-1, &status, 0);
+        pid_t p = waitpid(-1, &status, WNOHANG);
+        if (p == 0) {
+          // nobody finished: enforce the budget here too (a hung or very
+          // slow level must not hang the run)
+          if (now() - t0 > budget) {
+            for (int w = 0; w < nw; ++w)
+              if (pids[w] > 0)
+                kill(pids[w], SIGKILL);
+            while (waitpid(-1, &status, 0) > 0) {
+            }
+            R.deadline_hit = true;
+            aborted        = true;
+            break;
+          }
+          usleep(2000);
+          continue;
+        }
         if (p < 0)
           break;
         for (int w = 0; w < nw; ++w) {
@@ -435,7 +456,7 @@ public:
         const Rec& r = recs[i];
         if (r.status != 0)
           continue;
-        if (set_add(outs, out_slots, r.outcome ^ 0x77))
+        if (set_add(outs, out_slots, r.outcome ^ 0x77, true))
           R.distinct_outcomes++;
         if (!set_add(seen, seen_slots, r.key))
           continue;
@@ -531,7 +552,7 @@ public:
         }
         if (info().nontrivial)
           ws.nontrivial = ws.nontrivial + 1;
-        if (set_add(outs, out_slots, info().outcome ^ 0x77))
+        if (set_add(outs, out_slots, info().outcome ^ 0x77, true))
           sh->out_count.fetch_add(1);
         ws.done = ws.done + 1;
       }
